@@ -28,6 +28,7 @@ package bfe_http2
 import (
 	"bytes"
 	"fmt"
+	"runtime"
 	"sort"
 	"strings"
 	"testing"
@@ -92,6 +93,11 @@ var c38syms = map[string]c38sym{
 	"Vc":    {name: "Vc", op: "header", k: "X-TC", vals: []string{"vc"}},
 	"Vf":    {name: "Vf", op: "header", k: "x-TF", vals: []string{"vf"}},
 	"Tundl": {name: "Tundl", op: "header", k: "Trailer:x-tu", vals: []string{"vu"}},
+	// several prefix-announced trailers (bfe sorts the trailer list only when there are >= 2), names
+	// not in sorted order, one with a multi-valued entry
+	"P1": {name: "P1", op: "header", k: "Trailer:X-Zz", vals: []string{"zv"}},
+	"P2": {name: "P2", op: "header", k: "Trailer:x-mm", vals: []string{"mv-1", "mv-2"}},
+	"P3": {name: "P3", op: "header", k: "Trailer:X-Aa", vals: []string{"av"}},
 	// body
 	"W0":     {name: "W0", op: "write", n: 0},
 	"W1":     {name: "W1", op: "write", n: 1},
@@ -122,6 +128,9 @@ var c38families = []c38family{
 	// everything that changes the shape of the response, short
 	// header / trailer blocks of 2-3 frames (CONTINUATION) x {no body, small body, HEAD, 204} x flush
 	{"big", []string{"S204", "Hb17k", "Hb33k", "Hmany", "Htrb", "Tbig", "W1", "F", "R"}, 4, 5, false},
+	// 2..3 prefix-announced trailers, with and without a declared one, response headers with several
+	// fields, body none / small unflushed / flushed / body-less status
+	{"tpfx", []string{"S204", "P1", "P2", "P3", "Htr", "Tval", "Hmix", "Hct", "W1", "F", "R"}, 4, 5, true},
 	{"mix", []string{"S304", "S404", "Hconn", "Hte", "Hmix", "Hcl1", "Htr", "Tval", "Tund", "W0", "W4097", "F", "R"}, 3, 5, false},
 	// spelling of trailer declarations x when the value is set x body / flush / body-less status:
 	// Trailer elements in lower / UPPER / mixed case, lists with OWS, several Trailer lines,
@@ -137,6 +146,7 @@ var c38bfeAdds = map[string]bool{"date": true, "content-type": true, "content-le
 
 // c38model is the reference model of what the handler said.
 type c38model struct {
+	sid       uint32 // stream the response is judged on (0 means 1)
 	method    string
 	live      map[string][]string // lower-cased name -> values, model of w.Header()
 	snap      map[string][]string // copy of live when the header was committed
@@ -144,6 +154,13 @@ type c38model struct {
 	status    int
 	uses      map[string]int
 	hist      []string
+}
+
+func (m *c38model) stream() uint32 {
+	if m.sid == 0 {
+		return 1
+	}
+	return m.sid
 }
 
 func (m *c38model) commit(code int) {
@@ -289,7 +306,7 @@ func c38check(r *vk.Run, id string, e *h2env, h *h2handler, m *c38model) (shape 
 		case f.Type == FrameGoAway:
 			r.Violation("response:goaway", id, fmt.Sprintf("script %v (%s): server sent %v", m.hist, m.method, f))
 			return "goaway"
-		case f.StreamID == 1 && f.Type != FrameWindowUpdate:
+		case f.StreamID == m.stream() && f.Type != FrameWindowUpdate:
 			fs = append(fs, f)
 		}
 	}
@@ -491,7 +508,7 @@ func c38check(r *vk.Run, id string, e *h2env, h *h2handler, m *c38model) (shape 
 			// one root cause whatever the status / body: a trailer block with no field
 			c = "declared-trailers-never-set"
 		}
-		r.Violation("end-stream:missing:"+c, id, fmt.Sprintf("%s; no frame carries END_STREAM although the handler returned (stream state on the server: %s)", desc, c38streamState(e)))
+		r.Violation("end-stream:missing:"+c, id, fmt.Sprintf("%s; no frame carries END_STREAM although the handler returned (stream state on the server: %s)", desc, c38streamState(e, m.stream())))
 	case nES > 1:
 		r.Violation("end-stream:multiple:"+cls, id, desc)
 	case last != len(fs)-1:
@@ -500,11 +517,11 @@ func c38check(r *vk.Run, id string, e *h2env, h *h2handler, m *c38model) (shape 
 	return shape
 }
 
-func c38streamState(e *h2env) string {
+func c38streamState(e *h2env, sid uint32) string {
 	if e.sc == nil {
 		return "?"
 	}
-	if st, ok := e.sc.streams[1]; ok {
+	if st, ok := e.sc.streams[sid]; ok {
 		return fmt.Sprintf("state=%v", st.state)
 	}
 	return "forgotten (closed)"
@@ -682,21 +699,66 @@ func c38stream1(e *h2env) []h2frame {
 func TestVerifC38(t *testing.T) {
 	r := vk.Start(t, "C38")
 	defer r.Finish()
-	for _, f := range c38families {
-		f := f
-		depth := r.Pick(f.dq, f.dt)
+	reps := 1
+	if r.Replaying() {
+		reps = 3 // pooled objects are warm in a long run: replay the single case on warm pools too
+	}
+	for rep := 0; rep < reps; rep++ {
+		c38runAll(t, r)
+	}
+}
+
+// c38oneP runs f with a single P: the server's sync.Pools (sorter, responseWriterState, writeData)
+// then hand an object put by one goroutine to the next getter deterministically, so state leaking
+// through a pooled object shows up in the same execution every time instead of depending on thread
+// placement. (Used for the families built around pooled helpers; a whole run on one P is 3x slower.)
+func c38oneP(f func()) {
+	defer runtime.GOMAXPROCS(runtime.GOMAXPROCS(1))
+	f()
+}
+
+func c38runAll(t *testing.T, r *vk.Run) {
+	c38oneP(func() {
+		depth := r.Pick(4, 5)
 		complete := true
 		var nth int64
-		n := vk.ExploreSharded(r, f.name, 3, -1, func(ch *vk.Chooser) {
+		n := vk.ExploreSharded(r, "conc", 3, -1, func(ch *vk.Chooser) {
 			nth++
-			c38exec(t, r, f, depth, ch, nth)
+			c38execConc(t, r, depth, ch, nth)
 		}, func() bool {
-			if r.Expired("c38 " + f.name) {
+			if r.Expired("c38 conc") {
 				complete = false
 				return true
 			}
 			return false
 		})
+		r.Traces(n)
+		r.States(n)
+		r.Set("family_conc", fmt.Sprintf("two concurrent GET streams, stream window 4; all interleavings of <= %d events then drain, complete=%v", depth, complete))
+	})
+	for _, f := range c38families {
+		f := f
+		depth := r.Pick(f.dq, f.dt)
+		complete := true
+		var nth int64
+		explore := func() int64 {
+			return vk.ExploreSharded(r, f.name, 3, -1, func(ch *vk.Chooser) {
+				nth++
+				c38exec(t, r, f, depth, ch, nth)
+			}, func() bool {
+				if r.Expired("c38 " + f.name) {
+					complete = false
+					return true
+				}
+				return false
+			})
+		}
+		var n int64
+		if f.name == "tpfx" {
+			c38oneP(func() { n = explore() })
+		} else {
+			n = explore()
+		}
 		r.Traces(n)
 		r.States(n)
 		r.Set("family_"+f.name, fmt.Sprintf("alphabet %v, scripts of <= %d operations + return, x {GET,HEAD}, complete=%v", f.syms, depth, complete))
@@ -766,10 +828,12 @@ var c38winFamilies = []c38winFam{
 }
 
 // c38ended reports whether the client has seen END_STREAM on stream 1.
-func c38ended(e *h2env) bool {
+func c38ended(e *h2env) bool { return c38endedOn(e, 1) }
+
+func c38endedOn(e *h2env, sid uint32) bool {
 	e.recv()
 	for _, f := range e.frames {
-		if f.StreamID == 1 && f.EndStream {
+		if f.StreamID == sid && f.EndStream {
 			return true
 		}
 	}
@@ -875,6 +939,130 @@ func c38execWin(t *testing.T, r *vk.Run, f c38winFam, depth int, ch *vk.Chooser,
 		if nth%1501 == 17 {
 			merged, _ := c38mergeBlocks(c38stream1(e))
 			r.Sample(map[string]interface{}{"family": f.name, "events": strings.Join(m.hist, " "), "server_frames": h2traceShort(merged), "handler_wrote": len(h.wrote)})
+		}
+	})
+}
+
+// ---- family conc: a second stream's response is encoded while the first one is half sent ---------
+//
+// Stream 1 announces 2 or 3 trailers with the key prefix (variant 1: plus a declared one) and has a
+// 4-octet send window, so after its handler returned the tail of its body waits for window while
+// its trailer block is still to come; stream 3 (several response header fields, no or 1-octet body)
+// answers in between. All interleavings of stream-1 handler Write(5)/Flush/return, stream-3 handler
+// Write(1)/return and client WINDOW_UPDATE(stream 1){+4,+big} are executed; then the windows are
+// opened and BOTH responses are judged by the unchanged oracle.
+func c38execConc(t *testing.T, r *vk.Run, depth int, ch *vk.Chooser, nth int64) {
+	h2run(t, nil, false, func(e *h2env) {
+		e.recv()
+		e.fr.WriteSettings(Setting{SettingInitialWindowSize, 4})
+		e.flushFrame()
+		variant := ch.Choose(2)
+		if ch.Skipped {
+			return
+		}
+		m1 := &c38model{sid: 1, method: "GET", live: map[string][]string{}, uses: map[string]int{}}
+		m3 := &c38model{sid: 3, method: "GET", live: map[string][]string{}, uses: map[string]int{}}
+		e.request(1, "GET", "/s1", true)
+		e.request(3, "GET", "/s3", true)
+		h1, h3 := e.handler("/s1"), e.handler("/s3")
+		if h1 == nil || h3 == nil {
+			panic("c38: handlers not started")
+		}
+		pre1 := []string{"P1", "P2"}
+		if variant == 1 {
+			pre1 = []string{"Htr", "P3", "P1", "Tval", "P2"}
+		}
+		for _, n := range pre1 {
+			c38step(h1, m1, c38syms[n])
+		}
+		for _, n := range []string{"Hmix", "Hct", "Hmix"} {
+			c38step(h3, m3, c38syms[n])
+		}
+		hist := append([]string{}, m1.hist...)
+		hist = append(hist, "3:Hmix", "3:Hct", "3:Hmix", "|")
+		ret1, ret3 := false, false
+		type ev struct {
+			name string
+			run  func()
+		}
+		for d := 0; d < depth; d++ {
+			h1.poll()
+			h3.poll()
+			var evs []ev
+			if !ret1 && !h1.busy {
+				for _, n := range []string{"W5", "F", "R"} {
+					s := c38syms[n]
+					evs = append(evs, ev{"1:" + n, func() { c38stepB(h1, m1, s); ret1 = ret1 || s.op == "return" }})
+				}
+			}
+			if !ret3 && !h3.busy {
+				for _, n := range []string{"W1", "R"} {
+					s := c38syms[n]
+					evs = append(evs, ev{"3:" + n, func() { c38stepB(h3, m3, s); ret3 = ret3 || s.op == "return" }})
+				}
+			}
+			if !c38endedOn(e, 1) {
+				for _, c := range []c38cev{{"s1+4", true, 4}, {"s1+big", true, c38big}} {
+					c := c
+					evs = append(evs, ev{c.name, func() { c38windowUpdate(e, c) }})
+				}
+			}
+			if len(evs) == 0 {
+				break
+			}
+			i := ch.Choose(len(evs))
+			if ch.Skipped {
+				return
+			}
+			hist = append(hist, evs[i].name)
+			evs[i].run()
+			r.Transitions(1)
+		}
+		for len(ch.Trace()) < 3 {
+			ch.Choose(1)
+			if ch.Skipped {
+				return
+			}
+		}
+		for round := 0; round < 4; round++ {
+			h1.poll()
+			h3.poll()
+			if ret1 && ret3 && c38endedOn(e, 1) && c38endedOn(e, 3) {
+				break
+			}
+			for _, sid := range []uint32{1, 3} {
+				if !c38endedOn(e, sid) {
+					e.fr.WriteWindowUpdate(sid, c38big)
+					e.flushFrame()
+				}
+			}
+			h1.poll()
+			h3.poll()
+			if !ret1 && !h1.busy {
+				c38stepB(h1, m1, c38syms["R"])
+				ret1 = true
+				hist = append(hist, "1:R")
+			}
+			if !ret3 && !h3.busy {
+				c38stepB(h3, m3, c38syms["R"])
+				ret3 = true
+				hist = append(hist, "3:R")
+			}
+		}
+		hist = append(hist, "|drain")
+		h1.poll()
+		h3.poll()
+		e.recv()
+		m1.hist = append(append([]string{}, hist...), "(judging stream 1)")
+		m3.hist = append(append([]string{}, hist...), "(judging stream 3)")
+		id := ch.CaseID("conc")
+		sh1 := c38check(r, id, e, h1, m1)
+		sh3 := c38check(r, id, e, h3, m3)
+		r.Outcome(fmt.Sprintf("conc:%s | %s", sh1, sh3))
+		r.Case(id)
+		r.Nontrivial("conc:" + strings.Join(hist, " "))
+		if nth%701 == 17 {
+			r.Sample(map[string]interface{}{"family": "conc", "events": strings.Join(hist, " "), "stream1": sh1, "stream3": sh3})
 		}
 	})
 }
